@@ -54,6 +54,19 @@ def run(ctx):
                 vkw = [k for k in st.value.keywords if k.arg == "validator"]
                 if not vkw or not any(c is x for x in ast.walk(vkw[0].value)):
                     ctx.violate("R1", f"validate_shape('natom') of {name} is not installed as validator", relpath=ci.module.relpath, function=ci.qualname, construct=f"field {name} validator")
+    for name, f in fields.items():
+        st = f["stmt"]
+        if isinstance(st.value, ast.Call):
+            for k in st.value.keywords:
+                if k.arg == "on_setattr" and "validate" not in src_of(k.value):
+                    ctx.violate("R1", f"field {name} overrides on_setattr with `{src_of(k.value)}`: assignments after construction are no longer validated", relpath=ci.module.relpath, function=ci.qualname, construct=f"field {name} on_setattr={src_of(k.value)}")
+    for d in ci.node.decorator_list:
+        if isinstance(d, ast.Call):
+            for k in d.keywords:
+                if k.arg == "on_setattr" and "validate" not in src_of(k.value):
+                    ctx.violate("R1", f"IOData is defined with on_setattr=`{src_of(k.value)}`: assignments are no longer validated", relpath=ci.module.relpath, function=ci.qualname, construct=f"class on_setattr={src_of(k.value)}")
+                if k.arg in ("frozen", "slots") and False:
+                    pass
     natom = ci.getters.get("natom")
     if natom is None:
         raise AnalysisError("IOData.natom property not found")
@@ -80,6 +93,8 @@ def run(ctx):
 
     # ------------------------------------------------------------ typestate
     ts = TypeState(prog, ci, HIDDEN, ["atnums"])
+    # hidden fields with a shape validator: assigning an array of the wrong length raises TypeError at the store
+    ts.validated = {("_" + n) for n, f in fields.items() if f["private"] and f["array"]}
     for h in HIDDEN:
         if h.lstrip("_") not in fields or not fields[h.lstrip("_")]["private"]:
             raise AnalysisError(f"hidden field {h} not found in IOData")
@@ -167,7 +182,20 @@ def run(ctx):
                         if (ac != SET or ne != SET) and txt != "self._charge":
                             flag("R3", "charge stored", f"charge getter returns `{txt}` although it cannot be derived (must be the stored self._charge)", ci.getters["charge"], rn, st)
                 elif kind == "set":
+                    ts.inject, ts.vcount = None, 0
                     st2 = ts.call_setter(st, name, val)
+                    nvalidated = ts.vcount
+                    # the same assignment with a value the shape validator rejects (k-th validated store fails)
+                    for k in range(nvalidated):
+                        ts.inject, ts.vcount = k, 0
+                        try:
+                            ts.call_setter(st, name, val)
+                        except Raised as rr:
+                            nraise += 1
+                            if canon(ts.cur) != canon(st):
+                                flag("R4", f"J4 {name} rejected value", f"J4 violated: `{name} = <array the shape validator rejects>` raises TypeError after the object was already changed", ci.setters[name], rr.node, st)
+                        finally:
+                            ts.inject, ts.vcount = None, 0
                     # J2
                     if name in ("charge", "nelec", "spinpol"):
                         for fld, stack, node in ts.writes:
